@@ -6,9 +6,9 @@ import re
 import common
 
 TITLE = 'All replicas of a board agree with the table manager'
-LEAN_TARGETS = ['BridgeVerif.Translated.ThreadsClientF', 'BridgeVerif.Translated.ThreadsClientHands', 'BridgeVerif.Props.C11', 'BridgeVerif.Props.C11a', 'BridgeVerif.Translated.Play', 'BridgeVerif.Translated.NetHelpers', 'BridgeVerif.Translated.ThreadsClientA', 'BridgeVerif.Translated.ThreadsClientB', 'BridgeVerif.Translated.ThreadsClientC', 'BridgeVerif.Translated.ThreadsClientD']
-AUDIT_PROPS = ['C11', 'C11a', 'Translated.Play', 'Translated.NetHelpers', 'Translated.ThreadsClientA', 'Translated.ThreadsClientB', 'Translated.ThreadsClientC', 'Translated.ThreadsClientD', 'Translated.ThreadsClientE', 'Translated.ThreadsClientF', 'Translated.ClientParsersB', 'Translated.ClientParsersC', 'Translated.ClientParsersD', 'Lemmas.RegexMsgClient', 'Lemmas.RegexMsgClientB', 'Lemmas.RegexMsgHandB', 'Translated.HandParsersA', 'Translated.HandParsersD', 'Translated.ThreadsClientHands']
-REQUIRED = ['Translated.ThreadsClientF.connectParses_all', 'Translated.ThreadsClientHands.dealParses_of_hand', 'Translated.ThreadsClientHands.hand_message_translated', 'Translated.ThreadsClientF.parse_team_names_all', 'Translated.ThreadsClientE.board_header_returns',
+LEAN_TARGETS = ['BridgeVerif.Translated.ThreadsClientF', 'BridgeVerif.Translated.ThreadsClientHands', 'BridgeVerif.Translated.ThreadsClientG', 'BridgeVerif.Props.C11', 'BridgeVerif.Props.C11a', 'BridgeVerif.Translated.Play', 'BridgeVerif.Translated.NetHelpers', 'BridgeVerif.Translated.ThreadsClientA', 'BridgeVerif.Translated.ThreadsClientB', 'BridgeVerif.Translated.ThreadsClientC', 'BridgeVerif.Translated.ThreadsClientD']
+AUDIT_PROPS = ['C11', 'C11a', 'Translated.Play', 'Translated.NetHelpers', 'Translated.ThreadsClientA', 'Translated.ThreadsClientB', 'Translated.ThreadsClientC', 'Translated.ThreadsClientD', 'Translated.ThreadsClientE', 'Translated.ThreadsClientF', 'Translated.ClientParsersB', 'Translated.ClientParsersC', 'Translated.ClientParsersD', 'Lemmas.RegexMsgClient', 'Lemmas.RegexMsgClientB', 'Lemmas.RegexMsgHandB', 'Translated.HandParsersA', 'Translated.HandParsersD', 'Translated.ThreadsClientHands', 'Translated.ThreadsClientG']
+REQUIRED = ['Translated.ThreadsClientG.translated_client_is_session_program_closed', 'Translated.ThreadsClientG.session_boards_parses', 'Translated.ThreadsClientF.connectParses_all', 'Translated.ThreadsClientHands.dealParses_of_hand', 'Translated.ThreadsClientHands.hand_message_translated', 'Translated.ThreadsClientF.parse_team_names_all', 'Translated.ThreadsClientE.board_header_returns',
             'Translated.ThreadsClientD.translated_client_is_session_program', 'Translated.ThreadsClientD.translated_client_consumes_everything', 
             'Translated.ThreadsClientC.client_board_translated', 'Translated.ThreadsClientC.client_boards_translated', 'Translated.ThreadsClientC.client_run_translated', 
             'Translated.ThreadsClientB.client_play_card_translated', 'Translated.ThreadsClientB.client_playing_loop_translated', 'Translated.ThreadsClientB.client_playing_translated', 
